@@ -615,6 +615,13 @@ def run(run):
     opchecks.check(run, vm, 'OPERANDCHECK')
     errdisc(run, fx)
     nestguard(run, vm)
+    from .util import share as _share
+    if not getattr(run, '_sharing', False):
+        run._sharing = True
+        try:
+            _share(run, 'c14', ['COPYGUARD'], 'VALIDATOR')       # a compressed table is font data too: the decoder's copies stay inside both buffers (shared with C14)
+        finally:
+            run._sharing = False
     const_(run, vm)
     c16.tablets(run, fx)
     c16.ownfield(run, fx)
